@@ -627,6 +627,26 @@ def main():
       done += 1
       yield mb, qt, None, desc, dict(info, real_stats=True, directed='respecified-rule')
 
+  def directed_zp0(n):
+    """asymmetric constants whose zero point rounds to 0 (range NOT symmetric): the
+    stored codes must still use the full asymmetric range [qmin, qmax]"""
+    for i in range(n):
+      four = (i % 3 == 2)
+      saved = gg.CONST_KINDS
+      gg.CONST_KINDS = ['zp0_4' if four else 'zp0_8']
+      try:
+        mb, info = gg.gen_model(rng, n_subgraphs=1, max_ops=rng.choice([2, 3, 4]),
+                                op_weights=['FULLY_CONNECTED', 'CONV_2D', 'EMBEDDING_LOOKUP', 'ADD', 'MUL', 'SUB'])
+      finally:
+        gg.CONST_KINDS = saved
+      qt = quantizer.Quantizer(bytearray(mb))
+      cname = 'wo4t' if four else rng.choice(['wo8t', 'wo8t', 'a8w8'])
+      desc = gr.apply_rules(qt, [('.*', '*', gr.named_configs()[cname][0], cname)])
+      if not desc:
+        continue
+      stats = gr.own_stats(mb, gg.random_inputs(mb, rng, 1)) if qt.need_calibration else None
+      yield mb, qt, stats, desc, dict(info, real_stats=True, directed='zero-point-rounds-to-zero')
+
   def directed_same_name_sharers(n):
     """constants tied across subgraphs whose tensors ALSO carry the same name
     (the layer exported under two signatures keeps its variable name) x one
@@ -671,7 +691,8 @@ def main():
       directed_fp16_range(300 if tier == 'thorough' else 30),
       directed_same_tensor(400 if tier == 'thorough' else 40),
       directed_respec(200 if tier == 'thorough' else 20),
-      directed_same_name_sharers(300 if tier == 'thorough' else 30)):
+      directed_same_name_sharers(300 if tier == 'thorough' else 30),
+      directed_zp0(300 if tier == 'thorough' else 30)):
     dist['cases'] += 1
     if info.get('directed'):
       dist['directed:' + info['directed']] += 1
